@@ -368,7 +368,9 @@ impl<'a> Lua<'a> {
         }
         j += 1;
         // a first line break is skipped
-        if self.s.get(j) == Some(&b'\r') && self.s.get(j + 1) == Some(&b'\n') {
+        if (self.s.get(j) == Some(&b'\r') && self.s.get(j + 1) == Some(&b'\n'))
+            || (self.s.get(j) == Some(&b'\n') && self.s.get(j + 1) == Some(&b'\r'))
+        {
             j += 2;
         } else if self.s.get(j) == Some(&b'\n') || self.s.get(j) == Some(&b'\r') {
             j += 1;
@@ -380,7 +382,26 @@ impl<'a> Lua<'a> {
         match rest.windows(closer.len()).position(|w| w == closer.as_slice()) {
             Some(pos) => {
                 self.i = j + pos + closer.len();
-                Ok(rest[..pos].to_vec())
+                // Lua 5.1 (llex.c read_long_string / inclinenumber): every line break inside the
+                // body — LF, CR, CR LF, LF CR — is read as one LF. (Luau folds CR LF only; a text
+                // that is to mean the same in both must not contain a raw CR at all, and this
+                // reader takes the Lua 5.1 reading, under which any raw CR changes the value.)
+                let raw = &rest[..pos];
+                let mut out = Vec::with_capacity(raw.len());
+                let mut k = 0;
+                while k < raw.len() {
+                    let c = raw[k];
+                    if c == b'\n' || c == b'\r' {
+                        out.push(b'\n');
+                        if k + 1 < raw.len() && (raw[k + 1] == b'\n' || raw[k + 1] == b'\r') && raw[k + 1] != c {
+                            k += 1;
+                        }
+                    } else {
+                        out.push(c);
+                    }
+                    k += 1;
+                }
+                Ok(out)
             }
             None => Err("syntax: unfinished long string".into()),
         }
